@@ -186,6 +186,11 @@ class SysSim(Engine):
                 if rng.chance(0.6):
                     ops.append({"op": "heal"})
                     ops.append(self._gen_check(rng, world))
+            if rng.chance(0.12):
+                # the graph is edited between two checks without any name changing: a stock moved to another process (or detached), a flow
+                # replaced by one of the same name between other processes
+                ops.append({"op": "rewire", "what": rng.choice(["stock", "flow"]), "k": rng.randint(0, 20), "to": rng.randint(0, 20), "to2": rng.randint(0, 20)})
+                ops.append({"op": "check", "what": "mass_balance", "raise": rng.chance(0.5), "tol": rng.choice([None, None, 0.5])})
         return ops
 
     def _gen_check(self, rng, world):
@@ -623,6 +628,26 @@ class SysSim(Engine):
             self._fault(st, "conservation_" + fk + "_" + role)
             self._update_levels(st)
             return
+        if kind == "rewire":
+            from flodym import Flow
+            procs = list(sys_.processes.values())
+            if op["what"] == "stock" and world["stocks"]:
+                so = sys_.stocks[world["stocks"][op["k"] % len(world["stocks"])]["name"]]
+                cands = [None] + procs[1:]
+                new = cands[op["to"] % len(cands)]
+                if new is so.process:
+                    new = cands[(op["to"] + 1) % len(cands)]
+                so.process = new
+                self._probe(st, "stock_moved_to_another_process_between_checks")
+            else:
+                name = st.flow_names[op["k"] % len(st.flow_names)]
+                f = sys_.flows[name]
+                a, b = procs[op["to"] % len(procs)], procs[op["to2"] % len(procs)]
+                if a is f.from_process and b is f.to_process:
+                    a = procs[(op["to"] + 1) % len(procs)]
+                sys_.flows[name] = Flow(dims=f.dims, values=f.values, name=f.name, from_process=a, to_process=b)
+                self._probe(st, "flow_replaced_between_checks")
+            return
         if kind == "heal":
             if st.undo:
                 arr, idx, old = st.undo.pop()
@@ -795,7 +820,7 @@ class SysSim(Engine):
         flagged, clean, unspecified = [], [], []
         for name, f in zip(st.flow_names, world["flows"]):
             fl = sys_.flows[name]
-            if name in exceptions or world["processes"][f["from"]] in exceptions or world["processes"][f["to"]] in exceptions:
+            if name in exceptions or fl.from_process.name in exceptions or fl.to_process.name in exceptions:
                 clean.append(name)
                 continue
             v = fl.values
